@@ -138,6 +138,7 @@ def agg_cases(ctx, rng, n, scratch, settings):
     arules.TTLCache = TickingTTLCache if mode == 'ttl' else orig_ttl
     path = os.path.join(scratch, 'aggregation-rules-%d.conf' % k)
     rules, lines = write_rules(rng, path)
+    os.utime(path, (1000.0, 1000.0))
     s2 = dict(settings)
     s2['aggregation-rules'] = path
     s2['REPLICATION_FACTOR'] = rng.randint(1, 2)
@@ -156,7 +157,9 @@ def agg_cases(ctx, rng, n, scratch, settings):
     if k % 2:
       # the rules file changes while the relay runs: the 10 s re-read task picks it up
       rules, lines = write_rules(rng, path)
-      os.utime(path, (rm.rules_last_read + 100, rm.rules_last_read + 100))
+      # the replacement carries a preserved modification time (mv / rsync -t / tar): newer than the file it
+      # replaces, long before "now"
+      os.utime(path, (2000.0 + k, 2000.0 + k))
       clock.advance(11)
       reloaded = True
     if rm.read_task.running:
